@@ -3,6 +3,7 @@ import PercevalModel.Model.C12
 import PercevalModel.Model.C12Solve
 import PercevalModel.Model.C12Block
 import PercevalModel.Model.C12Glue
+import PercevalModel.Model.C12Other
 
 /-!
   C12 driver.  Requests (one JSON object per line):
@@ -38,7 +39,10 @@ import PercevalModel.Model.C12Glue
     `{"op":"blockmat","block":"mzi_last","ea":[re,im],"eb":[re,im],"a":z,"b":z}` → the block's matrix `M`
     (`bsPs` as built / `mziMat`), the matrix `Minv` the equation is built from (`bsPsInv` / `mziInv`), the value `eq` of
     `cU_inv[0,0]·a + cU_inv[0,1]·b` and whether `Minv · M = 1` — exact, at rational points of the unit circle
-    (`c² + s² = 1`, `|p| = |ea| = |eb| = 1`, rejected otherwise).
+    (`c² + s² = 1`, `|p| = |ea| = |eb| = 1`, rejected otherwise).  Also `"block":"bs"` (`c`, `s`: `BS(theta)` alone) and
+    `"block":"mzi_first"` (`ea`, `eb`: `catalog['mzi phase first']`), `Model/C12Other.lean`; their replies carry
+    `"nullable"`: whether SOME parameter value nulls the equation for this `(a, b)`, decided exactly by the criterion of
+    `bs_alone_nullable_iff` (`Re(a·conj b) = 0`) / `mzi_phase_first_nullable_iff` (`Im(a·conj b) = 0`).
   * `{"op":"glue","shape":{"str":"triangle"|"rectangle"|null} | {"obj":"triangle"|"rectangle"|"foreign"},
       "unitary":b,"symbolic":b,"constraints":null|"notlist"|[len|-1,…],"nparams":k,"max_try":n,"attempts":[b,…]}` →
     `{"outcome":"ValueError"|"AssertionError"|"NotImplementedError"|"None"|"circuit","k":attempt}`: the control flow of
@@ -272,6 +276,21 @@ def handleBlock (j : Json) : Except String Json := do
     if GQ.normSq ea ≠ 1 ∨ GQ.normSq eb ≠ 1 then throw "ea, eb not on the unit circle"
     let h : GQ := GQ.ofRat (1 / 2)
     return reply (mziMat GQ.I h ea eb) (mziInv GQ.I h (gqConj ea) (gqConj eb)) []
+  else if name == "bs" then
+    -- `BS(theta)` alone (`Model/C12Other.lean`); `nullable` = the criterion of `bs_alone_nullable_iff`, decided exactly
+    let c ← ratOfJson (← j.getObjVal? "c")
+    let s ← ratOfJson (← j.getObjVal? "s")
+    if c * c + s * s ≠ 1 then throw "c, s not on the unit circle"
+    return reply (bsRx GQ.I (GQ.ofRat c) (GQ.ofRat s)) (bsRxInv GQ.I (GQ.ofRat c) (GQ.ofRat s))
+      [("nullable", toJson (decide ((a * gqConj b).re = 0)))]
+  else if name == "mzi_first" then
+    -- `catalog['mzi phase first']`; `nullable` = the criterion of `mzi_phase_first_nullable_iff`
+    let ea ← gqOfJson (← j.getObjVal? "ea")
+    let eb ← gqOfJson (← j.getObjVal? "eb")
+    if GQ.normSq ea ≠ 1 ∨ GQ.normSq eb ≠ 1 then throw "ea, eb not on the unit circle"
+    let h : GQ := GQ.ofRat (1 / 2)
+    return reply (mziFirstMat GQ.I h ea eb) (mziFirstInv GQ.I h (gqConj ea) (gqConj eb))
+      [("nullable", toJson (decide ((a * gqConj b).im = 0)))]
   else throw "unknown block"
 
 def readShape (s : String) : Except String Glue.Shape :=
